@@ -142,6 +142,21 @@ Definition assemble_outer (value : bytes) (shrink : nat) : res bytes :=
 Section WithSigner.
 Variable sign : bytes -> bytes.   (* what write_signature_value writes for the bytes it is given *)
 
+(* DataPacketValue.encode with the signer: the value buffer after signing, and the number of reserved
+   signature octets that were not used (shrink_len) *)
+Definition signed_value (fs : list field) (sg : option signer_in) (covered : bytes) : res (bytes * nat) :=
+  match sg with
+  | None => Ok (covered, O)
+  | Some s =>
+      match kind_of fs T_SIG_VALUE with
+      | Some (KBytes _) =>
+          let sv := sign covered in
+          do _ <- check_sig_len (sg_reserved s) sv ;;
+          Ok (covered ++ sigvalue_buffer (sg_reserved s) sv, N.to_nat (sg_reserved s - N.of_nat (length sv)))
+      | _ => Err EType
+      end
+  end.
+
 Definition cert_name (a : cert_in) : res (list bytes) :=
   do kn <- name_normalize (c_key_name a) ;;
   do ver <- comp_from_number (c_now a) TYPE_VERSION ;;
@@ -160,18 +175,7 @@ Definition new_cert (a : cert_in) : res made :=
   do s_content <- enc_by fs T_CONTENT (VBytes (c_pub a)) ;;
   do s_info <- enc_by fs T_SIG_INFO (cert_siginfo written nb na) ;;
   let covered := s_name ++ s_meta ++ s_content ++ s_info in
-  do vs <- match c_signer a with
-           | None => Ok (covered, O)
-           | Some s =>
-               match kind_of fs T_SIG_VALUE with
-               | Some (KBytes _) =>
-                   let sv := sign covered in
-                   do _ <- check_sig_len (sg_reserved s) sv ;;
-                   Ok (covered ++ sigvalue_buffer (sg_reserved s) sv,
-                       N.to_nat (sg_reserved s - N.of_nat (length sv)))
-               | _ => Err EType
-               end
-           end ;;
+  do vs <- signed_value fs (c_signer a) covered ;;
   do w <- assemble_outer (fst vs) (snd vs) ;;
   Ok {| m_wire := w; m_final_name := name; m_sig_covered := covered; m_digest_covered := [] |}.
 
